@@ -180,7 +180,7 @@ def gen_vectors(ck: Check, t: Tpl, budget: int):
 
 
 def gen_exhaustive(ck: Check, t: Tpl):
-    cap = 2000 if ck.quick else 20000
+    cap = 2000 if ck.quick else 10000
     for k in range(3):
         d = 2 * (t.base + k)
         if d == 0:
@@ -329,7 +329,7 @@ def streams(ck: Check) -> None:
     for t in tiny:
         for stream, x in gen_exhaustive(ck, t):
             add_decode(t, stream, x, True)
-    per_tpl = 150 if ck.quick else 500
+    per_tpl = 150 if ck.quick else 300
     err_ops = []
     for t in tpls:
         budget = per_tpl if t.W * t.H < 10**6 else max(14, per_tpl // 4)
